@@ -17,6 +17,8 @@ What is enumerated (every case of every space, no sampling)
   P-two   every ordered pair (t1, t2) of PROGRAMS printed as
           chain(printer(t1), printer(t2)) with four sourcepath assignments
   P-three every ordered triple over the first programs, three sourcepaths
+          (quick: pairs need one member among the first 24 programs, the
+          extra path assignments both; see real_items)
 each x normalize in {False, True}.
 
 Well-formedness rules of a synthetic stream (taken from the docstring and the
@@ -709,17 +711,24 @@ def real_items(tier):
             items.append(dict(mode='write', programs=[i], paths=[sp]))
         items.append(dict(mode='io', programs=[i], paths=['a.js']))
     one = len(items)
-    # one source text made of two programs
+    # `sub`: thorough - every program; quick - the first 24 programs
+    sub = idx if tier == 'thorough' else idx[:24]
+    # one source text made of two programs: every ordered pair with at
+    # least one member in `sub`
     for i in idx:
         for j in idx:
-            items.append(dict(mode='cat', programs=[i, j], paths=['a.js']))
+            if i in sub or j in sub:
+                items.append(dict(mode='cat', programs=[i, j],
+                                  paths=['a.js']))
     cat = len(items) - one
-    # two sources: every ordered pair with paths (a.js, b.js); the other
-    # three assignments and io.write on every ordered pair of `sub`
-    sub = idx if tier == 'thorough' else idx[:24]
+    # two sources: every ordered pair with at least one member in `sub`,
+    # paths (a.js, b.js); the other three path assignments and io.write on
+    # every ordered pair of `sub`
     for i in idx:
         for j in idx:
             for k, paths in enumerate(PATHS2):
+                if not (i in sub or j in sub):
+                    continue
                 if k and not (i in sub and j in sub):
                     continue
                 items.append(dict(mode='write', programs=[i, j],
@@ -731,7 +740,7 @@ def real_items(tier):
     two = len(items) - one - cat
     # three sources: every ordered triple over a sub-list that includes the
     # programs with renamed parameters / multi-line tokens
-    sub3 = idx[:14] if tier == 'thorough' else idx[:8]
+    sub3 = idx[:14] if tier == 'thorough' else idx[:6]
     sub3 = sub3 + [e for e in (17, 31, 49) if e not in sub3]
     for i in sub3:
         for j in sub3:
